@@ -264,8 +264,17 @@ func (p *recog) redir() bool {
 	return true
 }
 
+// redirs consumes the redirections behind a compound command. A reserved
+// word is recognised directly behind the closing token of a compound command
+// (the dialect; C02 states it), but behind a redirection every word is an
+// ordinary word, and an ordinary word cannot follow a compound command.
 func (p *recog) redirs() {
+	n := 0
 	for p.redir() {
+		n++
+	}
+	if n > 0 && !p.eof() && p.peek().Kind == RWord {
+		p.bad()
 	}
 }
 
